@@ -37,7 +37,10 @@ fn init_pow_table(p: f64) {
 
 fn powf_model(b: f64, p: f64) -> f64 {
     unsafe {
-        assert!(p == POW_P, "harness: powf called with an unexpected exponent");
+        assert!(
+            p == POW_P,
+            "harness: powf called with an unexpected exponent"
+        );
         if b == 0.0 {
             0.0
         } else if b == 0.25 {
@@ -112,19 +115,40 @@ fn distance_core(mode: u8, three: bool) {
     let r2 = any_quarters2();
     init_pow_table(p);
     let n1 = if three { 3 } else { 2 };
-    let s = Strategies { game: &game, probs: [l1[..n1].to_vec().into_boxed_slice(), Box::new(l2) as Box<[f64]>] };
-    let t = Strategies { game: &game, probs: [r1[..n1].to_vec().into_boxed_slice(), Box::new(r2) as Box<[f64]>] };
+    let s = Strategies {
+        game: &game,
+        probs: [
+            l1[..n1].to_vec().into_boxed_slice(),
+            Box::new(l2) as Box<[f64]>,
+        ],
+    };
+    let t = Strategies {
+        game: &game,
+        probs: [
+            r1[..n1].to_vec().into_boxed_slice(),
+            Box::new(r2) as Box<[f64]>,
+        ],
+    };
     let d = s.distance(&t, p);
     let e = t.distance(&s, p);
     let same1 = l1[0] == r1[0] && l1[1] == r1[1] && l1[2] == r1[2];
     let same2 = l2[0] == r2[0];
     kani::cover!(same1 && !same2, "player one equal, player two different");
-    kani::cover!(l1[0] == 1.0 && r1[1] == 1.0 && l2[0] == 1.0 && r2[1] == 1.0, "disjoint pure supports");
-    kani::cover!(l1[0] == 0.5 && r1[0] == 0.25, "mixed profiles a quarter apart");
+    kani::cover!(
+        l1[0] == 1.0 && r1[1] == 1.0 && l2[0] == 1.0 && r2[1] == 1.0,
+        "disjoint pure supports"
+    );
+    kani::cover!(
+        l1[0] == 0.5 && r1[0] == 0.25,
+        "mixed profiles a quarter apart"
+    );
     if mode == 3 {
         // symmetry and zero-iff-equal only (cheap enough for the quick tier with 3 actions)
         for i in 0..2 {
-            assert!(d[i].to_bits() == e[i].to_bits(), "C19 symmetric: d(a,b) != d(b,a)");
+            assert!(
+                d[i].to_bits() == e[i].to_bits(),
+                "C19 symmetric: d(a,b) != d(b,a)"
+            );
         }
         assert!((d[0] == 0.0) == same1, "C19 zero-iff-equal: player one");
         core::mem::forget(s);
@@ -133,14 +157,20 @@ fn distance_core(mode: u8, three: bool) {
     }
     for i in 0..2 {
         if mode == 2 {
-            assert!(d[i] <= 1.0, "C19 range-p-below-one: distance above 1 for an exponent below one");
+            assert!(
+                d[i] <= 1.0,
+                "C19 range-p-below-one: distance above 1 for an exponent below one"
+            );
         } else {
             assert!(!d[i].is_nan(), "C19 nan: distance is NaN");
             assert!(d[i] >= 0.0, "C19 range: distance negative");
             if mode == 0 {
                 assert!(d[i] <= 1.0, "C19 range: distance above 1");
             }
-            assert!(d[i].to_bits() == e[i].to_bits(), "C19 symmetric: d(a,b) != d(b,a)");
+            assert!(
+                d[i].to_bits() == e[i].to_bits(),
+                "C19 symmetric: d(a,b) != d(b,a)"
+            );
         }
     }
     if mode != 2 {
@@ -223,18 +253,44 @@ fn c19_distance_unequal_tables() {
         FIXED_TABLE = true;
     }
     let game = table_game([&[(0, &[0, 1]), (1, &[0, 1])], &[(0, &[0, 1])]], [&[], &[]]);
-    let (a, b, c, d) = (any_quarters2(), any_quarters2(), any_quarters2(), any_quarters2());
+    let (a, b, c, d) = (
+        any_quarters2(),
+        any_quarters2(),
+        any_quarters2(),
+        any_quarters2(),
+    );
     let (e, f) = (any_quarters2(), any_quarters2());
     init_pow_table(2.0);
-    let s = Strategies { game: &game, probs: [Box::new([a[0], a[1], b[0], b[1]]) as Box<[f64]>, Box::new(e) as Box<[f64]>] };
-    let t = Strategies { game: &game, probs: [Box::new([c[0], c[1], d[0], d[1]]) as Box<[f64]>, Box::new(f) as Box<[f64]>] };
+    let s = Strategies {
+        game: &game,
+        probs: [
+            Box::new([a[0], a[1], b[0], b[1]]) as Box<[f64]>,
+            Box::new(e) as Box<[f64]>,
+        ],
+    };
+    let t = Strategies {
+        game: &game,
+        probs: [
+            Box::new([c[0], c[1], d[0], d[1]]) as Box<[f64]>,
+            Box::new(f) as Box<[f64]>,
+        ],
+    };
     let dist = s.distance(&t, 2.0);
     let sq = |x: f64| x * x;
     let w1 = (sq(a[0] - c[0]) + sq(a[1] - c[1]) + sq(b[0] - d[0]) + sq(b[1] - d[1])) / 4.0;
     let w2 = (sq(e[0] - f[0]) + sq(e[1] - f[1])) / 2.0;
-    kani::cover!(a[0] == 1.0 && c[0] == 0.0 && e[0] == f[0], "player one differs maximally in its first infoset, player two equal");
-    assert!(dist[0] == w1, "C19 value: player one's distance is not the mean over player one's infosets");
-    assert!(dist[1] == w2, "C19 value: player two's distance is not the mean over player two's infosets");
+    kani::cover!(
+        a[0] == 1.0 && c[0] == 0.0 && e[0] == f[0],
+        "player one differs maximally in its first infoset, player two equal"
+    );
+    assert!(
+        dist[0] == w1,
+        "C19 value: player one's distance is not the mean over player one's infosets"
+    );
+    assert!(
+        dist[1] == w2,
+        "C19 value: player two's distance is not the mean over player two's infosets"
+    );
     core::mem::forget(s);
     core::mem::forget(t);
 }
@@ -249,12 +305,24 @@ fn c19_distance_player_without_decisions() {
     let l1 = any_quarters2();
     let r1 = any_quarters2();
     init_pow_table(p);
-    let s = Strategies { game: &game, probs: [Box::new(l1) as Box<[f64]>, (Box::new([]) as Box<[f64]>)] };
-    let t = Strategies { game: &game, probs: [Box::new(r1) as Box<[f64]>, (Box::new([]) as Box<[f64]>)] };
+    let s = Strategies {
+        game: &game,
+        probs: [Box::new(l1) as Box<[f64]>, (Box::new([]) as Box<[f64]>)],
+    };
+    let t = Strategies {
+        game: &game,
+        probs: [Box::new(r1) as Box<[f64]>, (Box::new([]) as Box<[f64]>)],
+    };
     let d = s.distance(&t, p);
     kani::cover!(l1[0] != r1[0], "player one differs");
-    assert!(!d[1].is_nan(), "C19 nan: distance is NaN for a player without multi-action infosets");
-    assert!(d[1] == 0.0, "C19 zero-iff-equal: player without decisions must be at distance 0");
+    assert!(
+        !d[1].is_nan(),
+        "C19 nan: distance is NaN for a player without multi-action infosets"
+    );
+    assert!(
+        d[1] == 0.0,
+        "C19 zero-iff-equal: player without decisions must be at distance 0"
+    );
     assert!(!d[0].is_nan() && d[0] >= 0.0, "C19 nan: distance is NaN");
     core::mem::forget(s);
     core::mem::forget(t);
@@ -267,12 +335,27 @@ fn c19_panics_on_bad_exponent() {
     let game = game_b();
     let p: f64 = kani::any();
     kani::assume(!(p > 0.0));
-    let s = Strategies { game: &game, probs: [Box::new([0.5, 0.5]) as Box<[f64]>, (Box::new([]) as Box<[f64]>)] };
-    let t = Strategies { game: &game, probs: [Box::new([0.5, 0.5]) as Box<[f64]>, (Box::new([]) as Box<[f64]>)] };
+    let s = Strategies {
+        game: &game,
+        probs: [
+            Box::new([0.5, 0.5]) as Box<[f64]>,
+            (Box::new([]) as Box<[f64]>),
+        ],
+    };
+    let t = Strategies {
+        game: &game,
+        probs: [
+            Box::new([0.5, 0.5]) as Box<[f64]>,
+            (Box::new([]) as Box<[f64]>),
+        ],
+    };
     kani::cover!(p.is_nan(), "NaN exponent");
     kani::cover!(p == 0.0, "zero exponent");
     let _ = s.distance(&t, p);
-    assert!(false, "C19 panic-contract: distance returned for a non-positive exponent");
+    assert!(
+        false,
+        "C19 panic-contract: distance returned for a non-positive exponent"
+    );
 }
 
 /// Profiles of two different (even if structurally identical) games: the documented panic must fire.
@@ -281,11 +364,26 @@ fn c19_panics_on_bad_exponent() {
 fn c19_panics_on_different_games() {
     let g1 = game_b();
     let g2 = game_b();
-    let s = Strategies { game: &g1, probs: [Box::new([0.5, 0.5]) as Box<[f64]>, (Box::new([]) as Box<[f64]>)] };
-    let t = Strategies { game: &g2, probs: [Box::new([0.5, 0.5]) as Box<[f64]>, (Box::new([]) as Box<[f64]>)] };
+    let s = Strategies {
+        game: &g1,
+        probs: [
+            Box::new([0.5, 0.5]) as Box<[f64]>,
+            (Box::new([]) as Box<[f64]>),
+        ],
+    };
+    let t = Strategies {
+        game: &g2,
+        probs: [
+            Box::new([0.5, 0.5]) as Box<[f64]>,
+            (Box::new([]) as Box<[f64]>),
+        ],
+    };
     kani::cover!(true, "reached the call");
     let _ = s.distance(&t, 1.0);
-    assert!(false, "C19 panic-contract: distance returned for profiles of different games");
+    assert!(
+        false,
+        "C19 panic-contract: distance returned for profiles of different games"
+    );
 }
 
 #[cfg(test)]
